@@ -311,10 +311,12 @@ fn moderate_constants(ts: u16) -> BoxedStrategy<AfConstants> {
 }
 
 pub fn adaptive_case() -> BoxedStrategy<SimCase> {
-    prop::sample::select(vec![1u16, 2, 8, 64, 128])
+    prop_oneof![8 => prop::sample::select(vec![1u16, 2, 8, 64, 128]), 1 => prop::sample::select(vec![32768u16, 32896])]
         .prop_flat_map(|ts| {
-            let pos = (-250i16..250, 1i16..200, (16u32..70).prop_map(|b| 1u128 << b)).prop_map(|(lo, w, liquidity)| SimPos { lo, hi: lo.saturating_add(w), liquidity });
-            (Just(ts), valid_constants(ts), -40_000i32..40_000, -1i8..=1, prop::sample::select(vec![0u16, 1, 100, 3000, 10_000, 60_000]), 0u16..=2500, prop::collection::vec(pos, 1..7))
+            let pos = (-250i16..250, 1i16..200, (16u32..70).prop_map(|b| 1u128 << b), 0u8..8)
+                .prop_map(|(lo, w, liquidity, full)| if full == 0 { SimPos { lo: i16::MIN, hi: i16::MAX, liquidity } } else { SimPos { lo, hi: lo.saturating_add(w), liquidity } });
+            let start = prop_oneof![6 => -40_000i32..40_000, 1 => gen::any_tick(), 1 => (0i32..30_000, any::<bool>()).prop_map(|(d, up)| if up { MAX_TICK - d } else { MIN_TICK + d })];
+            (Just(ts), valid_constants(ts), start, -1i8..=1, prop::sample::select(vec![0u16, 1, 100, 3000, 10_000, 60_000]), 0u16..=2500, prop::collection::vec(pos, 1..7))
         })
         .prop_flat_map(|(ts, k, start_tick, off, fee_rate, protocol_fee_rate, positions)| {
             // elapsed-time classes around the filter / decay periods and the one-hour reset
